@@ -591,19 +591,61 @@ theorem logFoldD_erase (env : DegEnv) :
       | true => simp [hc, eraseL]
       | false => simp [hc, eraseL, erase_degExpr]
 
+/-- the environment a substitution evaluates its right-hand side in: the target is marked assigned first -/
+def subEnv (env : DegEnv) (v : VName) : DegEnv :=
+  { env with assigned := if env.assigned.contains v then env.assigned else v :: env.assigned }
+
+theorem degree_subEnv (env : DegEnv) (v w : VName) : (subEnv env v).degree w = env.degree w := rfl
+theorem isLocal_subEnv (env : DegEnv) (v w : VName) : (subEnv env v).isLocal w = env.isLocal w := rfl
+theorem isAssigned_subEnv_self (env : DegEnv) (v : VName) : (subEnv env v).isAssigned v = true := by
+  unfold subEnv DegEnv.isAssigned
+  by_cases h : env.assigned.contains v = true
+  · simp only [h, if_true]
+  · simp only [h, List.contains_cons, beq_self_eq_true, Bool.true_or]; simp
+theorem isAssigned_subEnv_mono (env : DegEnv) (v w : VName) (h : env.isAssigned w = true) :
+    (subEnv env v).isAssigned w = true := by
+  unfold subEnv DegEnv.isAssigned at *
+  by_cases hc : env.assigned.contains v = true
+  · simp only [hc, if_true]; exact h
+  · have : (if env.assigned.contains v = true then env.assigned else v :: env.assigned) = v :: env.assigned := by
+      simp only [hc]; rfl
+    rw [this, List.contains_cons, h, Bool.or_true]
+theorem isAssigned_subEnv_false (env : DegEnv) (v w : VName) (h : (subEnv env v).isAssigned w = false) :
+    env.isAssigned w = false := by
+  cases h' : env.isAssigned w with
+  | false => rfl
+  | true => rw [isAssigned_subEnv_mono env v w h'] at h; cases h
+
+/-- `degStmt` on a substitution, case by case -/
+theorem degStmt_sub (env : DegEnv) (a : Ann) (v : VName) (ty : Option VType) (op : String) (rhe : Expr) :
+    degStmt env (.sub a v ty op rhe) =
+      let env₁ := subEnv env v
+      let r := degExpr env₁ rhe
+      if env₁.isLocal v then
+        match r.1.ann.deg with
+        | some rg =>
+          if r.2 then (.sub a v ty op r.1, env₁, true)
+          else (.sub a v ty op r.1, (env₁.setDegree v rg).1, (env₁.setDegree v rg).2)
+        | none => (.sub a v ty op r.1, env₁, r.2)
+      else (.sub a v ty op r.1, env₁, r.2) := rfl
+
+theorem degStmt_sub_fst (env : DegEnv) (a : Ann) (v : VName) (ty : Option VType) (op : String) (rhe : Expr) :
+    (degStmt env (.sub a v ty op rhe)).1 = .sub a v ty op (degExpr (subEnv env v) rhe).1 := by
+  rw [degStmt_sub]
+  simp only
+  split
+  · split
+    · split <;> rfl
+    · rfl
+  · rfl
+
 /-- degree propagation changes annotations only, statement level -/
 theorem eraseS_degStmt (env : DegEnv) (s : Stmt) : eraseS (degStmt env s).1 = eraseS s := by
   cases s with
   | decl names ty dims => rw [degStmt_decl]
   | ite c => simp only [degStmt, eraseS, erase_degExpr]
   | ret e => simp only [degStmt, eraseS, erase_degExpr]
-  | sub a v ty op rhe =>
-    simp only [degStmt]
-    split
-    · split
-      · split <;> simp only [eraseS, erase_degExpr]
-      · simp only [eraseS, erase_degExpr]
-    · simp only [eraseS, erase_degExpr]
+  | sub a v ty op rhe => rw [degStmt_sub_fst]; simp only [eraseS, erase_degExpr]
   | ceq l r =>
     simp only [degStmt]
     cases hc : (degExpr env l).2 with
@@ -612,5 +654,827 @@ theorem eraseS_degStmt (env : DegEnv) (s : Stmt) : eraseS (degStmt env s).1 = er
   | log args =>
     rw [degStmt_log]; simp only [eraseS]; rw [logFoldD_erase]; simp
   | assert e => simp only [degStmt, eraseS, erase_degExpr]
+
+-- ---------------------------------------------------------------------------- the global invariant
+
+/-- `M`: the statements currently in the CFG (a superset is harmless); `Done`: the (erased) statements
+    that some pass has visited without any change -/
+structure GInvD (E : List Stmt) (ps : List VName) (fn : Bool) (env : DegEnv) (M Done : Stmt → Prop) : Prop where
+  linked : ∀ s, M s → eraseS s ∈ E
+  bound : ∀ δ, ReachD E ps fn δ → ∀ v r, env.degree v = some r → δ v ≤ r.2 ∧ r.2 ≤ 3
+  doneSub : ∀ t, Done t → ∀ v, defVar t = some v → env.isAssigned v = true
+  doneDecl : ∀ t, Done t → ∀ v, declaresNL t v → env.degree v ≠ none
+  params : ∀ v, v ∈ ps → env.degree v ≠ none
+  localOnly : ∀ v, env.isLocal v = true → LocalDecl E v ∨ v ∈ ps
+  sound : ∀ δ, ReachD E ps fn δ → ∀ s, M s → SoundSD δ s
+
+/-- what the positional hypothesis gives for the statement being visited -/
+def PreOK (E : List Stmt) (Done : Stmt → Prop) (B : List VName) : Prop :=
+  ∀ v, v ∈ B → (HasSub E v → ∃ t, Done t ∧ defVar t = some v) ∧ (NonLocal E v → ∃ t, Done t ∧ declaresNL t v)
+
+/-- in every reachable state the environment agrees, with freshness for the update bases `B` -/
+theorem agreeD_of {E : List Stmt} {ps : List VName} {fn : Bool} {env : DegEnv} {M Done : Stmt → Prop}
+    (h : GInvD E ps fn env M Done) (env₁ : DegEnv)
+    (hdeg : ∀ w, env₁.degree w = env.degree w) (hasg : ∀ w, env.isAssigned w = true → env₁.isAssigned w = true)
+    (B : List VName) (hpre : PreOK E Done B) :
+    ∀ δ, ReachD E ps fn δ → AgreeD δ env₁ (fun v => v ∈ B) := by
+  intro δ hr
+  refine ⟨fun v r hv => h.bound δ hr v r (by rw [← hdeg]; exact hv), ?_, reachD_le3 E ps fn δ hr⟩
+  intro v hvB hnone hna
+  rw [hdeg] at hnone
+  obtain ⟨p1, p2⟩ := hpre v hvB
+  have hns : ¬ HasSub E v := by
+    intro hs
+    obtain ⟨t, ht, hd⟩ := p1 hs
+    have := hasg v (h.doneSub t ht v hd)
+    rw [this] at hna; cases hna
+  have hnl : ¬ NonLocal E v := by
+    intro hn
+    obtain ⟨t, ht, hd⟩ := p2 hn
+    exact h.doneDecl t ht v hd hnone
+  have hnp : v ∉ ps := fun hp => h.params v hp hnone
+  rcases reachD_origin E ps fn δ hr v hnl hnp with h0 | ⟨δ₁, a, ty, op, rhe, _, hmem, _⟩
+  · exact h0
+  · exact absurd ⟨_, hmem, rfl⟩ hns
+
+theorem preOK_mono {E : List Stmt} {Done : Stmt → Prop} {B B' : List VName} (h : PreOK E Done B)
+    (hsub : ∀ v, v ∈ B' → v ∈ B) : PreOK E Done B' := fun v hv => h v (hsub v hv)
+
+/-- an expression of the visited statement: sound before ⇒ sound after, in every reachable state -/
+theorem expr_step {E : List Stmt} {ps : List VName} {fn : Bool} {env : DegEnv} {M Done : Stmt → Prop}
+    (h : GInvD E ps fn env M Done) (env₁ : DegEnv)
+    (hdeg : ∀ w, env₁.degree w = env.degree w) (hasg : ∀ w, env.isAssigned w = true → env₁.isAssigned w = true)
+    (e : Expr) (hpre : PreOK E Done (basesE e)) :
+    ∀ δ, ReachD E ps fn δ → SoundD δ FTop e → SoundD δ FTop (degExpr env₁ e).1 := by
+  intro δ hr hs
+  have hag := agreeD_of h env₁ hdeg hasg (basesE e) hpre δ hr
+  have h1 := soundD_restrict δ FTop (fun v => v ∈ basesE e) e hs (fun _ hv => hv)
+  exact soundD_top' δ _ _ (degExpr_sound δ _ env₁ hag e h1)
+
+theorem le_maxList (l : List Nat) (x : Nat) (h : x ∈ l) : x ≤ maxList l := by
+  induction l with
+  | nil => cases h
+  | cons y r ih =>
+    simp only [maxList]
+    rcases List.mem_cons.mp h with h | h
+    · subst h; omega
+    · have := ih h; omega
+
+/-- processing one statement keeps the invariant; the statement becomes `Done` if nothing changed -/
+theorem microD (E : List Stmt) (ps : List VName) (fn : Bool) (wf : WfD E ps) (env : DegEnv) (M Done : Stmt → Prop)
+    (h : GInvD E ps fn env M Done) (s : Stmt) (hs : M s) (hpre : PreOK E Done (basesS s)) :
+    GInvD E ps fn (degStmt env s).2.1 (fun t => M t ∨ t = (degStmt env s).1)
+      (fun t => Done t ∨ ((degStmt env s).2.2 = false ∧ t = eraseS s)) := by
+  have hlink := h.linked s hs
+  cases s with
+  | decl names ty dims =>
+    rw [degStmt_decl]
+    simp only
+    obtain ⟨f1, f2, f3, f4, f5⟩ := declFold ty names env false
+    have hdeclE : Stmt.decl names ty (dims.map erase) ∈ E := by simpa [eraseS] using hlink
+    refine ⟨?_, ?_, ?_, ?_, ?_, ?_, ?_⟩
+    · intro t ht; rcases ht with ht | ht
+      · exact h.linked t ht
+      · subst ht; exact hlink
+    · intro δ hr v r hv
+      rcases f2 v r hv with h1 | ⟨h1, h2, h3⟩
+      · exact h.bound δ hr v r h1
+      · subst h3
+        have : δ v = 1 := reachD_nonlocal E ps fn δ hr v ⟨_, hdeclE, h1, h2⟩
+        simp [this]
+    · intro t ht v hd
+      rw [f3]
+      rcases ht with ht | ⟨_, ht⟩
+      · exact h.doneSub t ht v hd
+      · subst ht; simp [eraseS, defVar] at hd
+    · intro t ht v hd
+      rcases ht with ht | ⟨hc, ht⟩
+      · exact f1 v (h.doneDecl t ht v hd)
+      · subst ht
+        simp only [eraseS, declaresNL] at hd
+        exact (f5 hc).2 hd.1 v hd.2
+    · intro v hv; exact f1 v (h.params v hv)
+    · intro v hv
+      rcases f4 v hv with h1 | ⟨h1, h2⟩
+      · exact h.localOnly v h1
+      · exact Or.inl ⟨_, hdeclE, h2, h1⟩
+    · intro δ hr t ht
+      rcases ht with ht | ht
+      · exact h.sound δ hr t ht
+      · subst ht; exact h.sound δ hr _ hs
+  | sub a v ty op rhe =>
+    have hsubE : Stmt.sub {} v ty op (erase rhe) ∈ E := by simpa [eraseS] using hlink
+    have hpreE : PreOK E Done (basesE rhe) := by simpa [basesS] using hpre
+    have hstep := expr_step h (subEnv env v) (degree_subEnv env v) (isAssigned_subEnv_mono env v) rhe hpreE
+    have hsound : ∀ δ, ReachD E ps fn δ → SoundD δ FTop (degExpr (subEnv env v) rhe).1 := by
+      intro δ hr
+      have := h.sound δ hr _ hs
+      unfold SoundSD at this
+      exact hstep δ hr this
+    -- facts that hold for all three possible result environments
+    have hfst := degStmt_sub_fst env a v ty op rhe
+    -- describe the resulting environment
+    have henv : (degStmt env (.sub a v ty op rhe)).2.1 = subEnv env v ∨
+        (∃ rg, (degExpr (subEnv env v) rhe).1.ann.deg = some rg ∧ (subEnv env v).isLocal v = true ∧
+          (degStmt env (.sub a v ty op rhe)).2.1 = ((subEnv env v).setDegree v rg).1) := by
+      rw [degStmt_sub]
+      simp only
+      split
+      · rename_i hl
+        split
+        · rename_i rg hrg
+          split
+          · exact Or.inl rfl
+          · exact Or.inr ⟨rg, hrg, hl, rfl⟩
+        · exact Or.inl rfl
+      · exact Or.inl rfl
+    -- the degree of the new environment
+    have hdeg' : ∀ w r, (degStmt env (.sub a v ty op rhe)).2.1.degree w = some r →
+        env.degree w = some r ∨ (w = v ∧ (degExpr (subEnv env v) rhe).1.ann.deg = some r ∧ (subEnv env v).isLocal v = true) := by
+      intro w r hw
+      rcases henv with he | ⟨rg, hrg, hl, he⟩
+      · rw [he, degree_subEnv] at hw; exact Or.inl hw
+      · rw [he, degree_setDegree] at hw
+        split at hw
+        · rename_i hwv; cases hw; exact Or.inr ⟨hwv, hrg, hl⟩
+        · rw [degree_subEnv] at hw; exact Or.inl hw
+    have hmono : ∀ w, env.degree w ≠ none → (degStmt env (.sub a v ty op rhe)).2.1.degree w ≠ none := by
+      intro w hw
+      rcases henv with he | ⟨rg, hrg, hl, he⟩
+      · rw [he, degree_subEnv]; exact hw
+      · rw [he, degree_setDegree]; split
+        · simp
+        · rw [degree_subEnv]; exact hw
+    have hasg' : ∀ w, (degStmt env (.sub a v ty op rhe)).2.1.isAssigned w = (subEnv env v).isAssigned w := by
+      intro w
+      rcases henv with he | ⟨rg, hrg, hl, he⟩
+      · rw [he]
+      · rw [he, isAssigned_setDegree]
+    have hloc' : ∀ w, (degStmt env (.sub a v ty op rhe)).2.1.isLocal w = env.isLocal w := by
+      intro w
+      rcases henv with he | ⟨rg, hrg, hl, he⟩
+      · rw [he, isLocal_subEnv]
+      · rw [he, isLocal_setDegree, isLocal_subEnv]
+    refine ⟨?_, ?_, ?_, ?_, ?_, ?_, ?_⟩
+    · intro t ht; rcases ht with ht | ht
+      · exact h.linked t ht
+      · subst ht; rw [eraseS_degStmt]; exact hlink
+    · -- the bound of the new environment
+      intro δ hr w r hw
+      rcases hdeg' w r hw with h1 | ⟨h1, h2, h3⟩
+      · exact h.bound δ hr w r h1
+      · subst h1
+        rw [isLocal_subEnv] at h3
+        have hcl := soundD_top δ FTop _ (hsound δ hr) r h2
+        refine ⟨?_, hcl.2⟩
+        -- `w` is a declared local, not a parameter: its degree is 0 or was produced by this substitution
+        have hnp : w ∉ ps := fun hp => wf.params w hp ⟨_, hsubE, rfl⟩
+        have hnl : ¬ NonLocal E w := by
+          intro hn
+          rcases h.localOnly w h3 with hl | hp
+          · exact (wf.types w hn).1 hl
+          · exact hnp hp
+        rcases reachD_origin E ps fn δ hr w hnl hnp with h0 | ⟨δ₁, a₁, ty₁, op₁, rhe₁, hr₁, hmem₁, hle⟩
+        · omega
+        · have heq : Stmt.sub a₁ w ty₁ op₁ rhe₁ = Stmt.sub {} w ty op (erase rhe) := by
+            rcases wf.single _ _ hmem₁ hsubE w rfl rfl with h | h
+            · exact h
+            · exact absurd h hnl
+          simp only [Stmt.sub.injEq] at heq
+          obtain ⟨_, _, _, _, h5⟩ := heq
+          subst h5
+          have hcl₁ := soundD_top δ₁ FTop _ (hsound δ₁ hr₁) r h2
+          rw [degE_degExpr, ← degE_erase] at hcl₁
+          omega
+    · intro t ht w hd
+      rw [hasg']
+      rcases ht with ht | ⟨_, ht⟩
+      · exact isAssigned_subEnv_mono env v w (h.doneSub t ht w hd)
+      · subst ht
+        simp only [eraseS, defVar, Option.some.injEq] at hd
+        subst hd
+        exact isAssigned_subEnv_self env v
+    · intro t ht w hd
+      rcases ht with ht | ⟨_, ht⟩
+      · exact hmono w (h.doneDecl t ht w hd)
+      · subst ht; simp [eraseS, declaresNL] at hd
+    · intro w hw; exact hmono w (h.params w hw)
+    · intro w hw; rw [hloc'] at hw; exact h.localOnly w hw
+    · intro δ hr t ht
+      rcases ht with ht | ht
+      · exact h.sound δ hr t ht
+      · subst ht
+        rw [hfst]
+        unfold SoundSD
+        exact hsound δ hr
+  | ite c =>
+    have hpreE : PreOK E Done (basesE c) := by simpa [basesS] using hpre
+    have hstep := expr_step h env (fun _ => rfl) (fun _ h => h) c hpreE
+    simp only [degStmt]
+    refine ⟨?_, h.bound, ?_, ?_, h.params, h.localOnly, ?_⟩
+    · intro t ht; rcases ht with ht | ht
+      · exact h.linked t ht
+      · subst ht; simpa [eraseS, erase_degExpr] using hlink
+    · intro t ht w hd
+      rcases ht with ht | ⟨_, ht⟩
+      · exact h.doneSub t ht w hd
+      · subst ht; simp [eraseS, defVar] at hd
+    · intro t ht w hd
+      rcases ht with ht | ⟨_, ht⟩
+      · exact h.doneDecl t ht w hd
+      · subst ht; simp [eraseS, declaresNL] at hd
+    · intro δ hr t ht
+      rcases ht with ht | ht
+      · exact h.sound δ hr t ht
+      · subst ht
+        have := h.sound δ hr _ hs
+        unfold SoundSD at this ⊢
+        exact hstep δ hr this
+  | ret e =>
+    have hpreE : PreOK E Done (basesE e) := by simpa [basesS] using hpre
+    have hstep := expr_step h env (fun _ => rfl) (fun _ h => h) e hpreE
+    simp only [degStmt]
+    refine ⟨?_, h.bound, ?_, ?_, h.params, h.localOnly, ?_⟩
+    · intro t ht; rcases ht with ht | ht
+      · exact h.linked t ht
+      · subst ht; simpa [eraseS, erase_degExpr] using hlink
+    · intro t ht w hd
+      rcases ht with ht | ⟨_, ht⟩
+      · exact h.doneSub t ht w hd
+      · subst ht; simp [eraseS, defVar] at hd
+    · intro t ht w hd
+      rcases ht with ht | ⟨_, ht⟩
+      · exact h.doneDecl t ht w hd
+      · subst ht; simp [eraseS, declaresNL] at hd
+    · intro δ hr t ht
+      rcases ht with ht | ht
+      · exact h.sound δ hr t ht
+      · subst ht
+        have := h.sound δ hr _ hs
+        unfold SoundSD at this ⊢
+        exact hstep δ hr this
+  | assert e =>
+    have hpreE : PreOK E Done (basesE e) := by simpa [basesS] using hpre
+    have hstep := expr_step h env (fun _ => rfl) (fun _ h => h) e hpreE
+    simp only [degStmt]
+    refine ⟨?_, h.bound, ?_, ?_, h.params, h.localOnly, ?_⟩
+    · intro t ht; rcases ht with ht | ht
+      · exact h.linked t ht
+      · subst ht; simpa [eraseS, erase_degExpr] using hlink
+    · intro t ht w hd
+      rcases ht with ht | ⟨_, ht⟩
+      · exact h.doneSub t ht w hd
+      · subst ht; simp [eraseS, defVar] at hd
+    · intro t ht w hd
+      rcases ht with ht | ⟨_, ht⟩
+      · exact h.doneDecl t ht w hd
+      · subst ht; simp [eraseS, declaresNL] at hd
+    · intro δ hr t ht
+      rcases ht with ht | ht
+      · exact h.sound δ hr t ht
+      · subst ht
+        have := h.sound δ hr _ hs
+        unfold SoundSD at this ⊢
+        exact hstep δ hr this
+  | ceq l r =>
+    have hpl : PreOK E Done (basesE l) := preOK_mono hpre (by intro v hv; simp [basesS, hv])
+    have hpr : PreOK E Done (basesE r) := preOK_mono hpre (by intro v hv; simp [basesS, hv])
+    have hl := expr_step h env (fun _ => rfl) (fun _ h => h) l hpl
+    have hr' := expr_step h env (fun _ => rfl) (fun _ h => h) r hpr
+    refine ⟨?_, ?_, ?_, ?_, ?_, ?_, ?_⟩
+    · intro t ht; rcases ht with ht | ht
+      · exact h.linked t ht
+      · subst ht; rw [eraseS_degStmt]; exact hlink
+    · simpa [degStmt] using h.bound
+    · intro t ht w hd
+      have : (degStmt env (.ceq l r)).2.1 = env := by simp [degStmt]
+      rw [this]
+      rcases ht with ht | ⟨_, ht⟩
+      · exact h.doneSub t ht w hd
+      · subst ht; simp [eraseS, defVar] at hd
+    · intro t ht w hd
+      have : (degStmt env (.ceq l r)).2.1 = env := by simp [degStmt]
+      rw [this]
+      rcases ht with ht | ⟨_, ht⟩
+      · exact h.doneDecl t ht w hd
+      · subst ht; simp [eraseS, declaresNL] at hd
+    · simpa [degStmt] using h.params
+    · simpa [degStmt] using h.localOnly
+    · intro δ hr t ht
+      rcases ht with ht | ht
+      · exact h.sound δ hr t ht
+      · subst ht
+        have := h.sound δ hr _ hs
+        unfold SoundSD at this
+        simp only [degStmt]
+        cases hc : (degExpr env l).2 with
+        | true => simp only [if_true]; unfold SoundSD; exact ⟨hl δ hr this.1, this.2⟩
+        | false => simp only [Bool.false_eq_true, if_false]; unfold SoundSD; exact ⟨hl δ hr this.1, hr' δ hr this.2⟩
+  | log args =>
+    rw [degStmt_log]
+    simp only
+    refine ⟨?_, h.bound, ?_, ?_, h.params, h.localOnly, ?_⟩
+    · intro t ht; rcases ht with ht | ht
+      · exact h.linked t ht
+      · subst ht
+        simp only [eraseS] at hlink ⊢
+        rw [logFoldD_erase]; simpa using hlink
+    · intro t ht w hd
+      rcases ht with ht | ⟨_, ht⟩
+      · exact h.doneSub t ht w hd
+      · subst ht; simp [eraseS, defVar] at hd
+    · intro t ht w hd
+      rcases ht with ht | ⟨_, ht⟩
+      · exact h.doneDecl t ht w hd
+      · subst ht; simp [eraseS, declaresNL] at hd
+    · intro δ hr t ht
+      rcases ht with ht | ht
+      · exact h.sound δ hr t ht
+      · subst ht
+        have hold := h.sound δ hr _ hs
+        unfold SoundSD at hold ⊢
+        intro e he
+        -- every expression of the fold result is sound and has its update bases among those of the statement
+        have := logFoldD_inv env (fun e => SoundD δ FTop e ∧ (∀ v, v ∈ basesE e → v ∈ basesS (.log args)))
+          (by
+            intro e ⟨h1, h2⟩
+            refine ⟨expr_step h env (fun _ => rfl) (fun _ h => h) e (preOK_mono hpre h2) δ hr h1, ?_⟩
+            intro v hv
+            have : basesE (degExpr env e).1 = basesE e := by
+              rw [← basesE_erase, erase_degExpr, basesE_erase]
+            rw [this] at hv; exact h2 v hv)
+          args ([], false) (by intro e he; simp at he)
+          (by
+            intro e he
+            refine ⟨hold e he, ?_⟩
+            intro v hv
+            simp only [basesS, List.mem_flatMap]
+            exact ⟨.expr e, he, by simpa [basesL] using hv⟩)
+          e he
+        exact this.1
+
+-- ---------------------------------------------------------------------------- passes and the loop
+
+def passStepD (acc : List Stmt × DegEnv × Bool) (s : Stmt) : List Stmt × DegEnv × Bool :=
+  let (done, env, c) := acc
+  if c then (done ++ [s], env, true)
+  else let (s', env', c') := degStmt env s; (done ++ [s'], env', c')
+
+def blockStepD (acc : List Block × DegEnv × Bool) (b : Block) : List Block × DegEnv × Bool :=
+  let (bs, env, c) := acc
+  if c then (bs ++ [b], env, true)
+  else
+    let (ss, env', c') := b.stmts.foldl passStepD ([], env, false)
+    (bs ++ [{ stmts := ss }], env', c')
+
+theorem degPass_eq (env : DegEnv) (bs : List Block) : degPass env bs = bs.foldl blockStepD ([], env, false) := rfl
+
+theorem passStepD_true (rest : List Stmt) : ∀ (done : List Stmt) (env : DegEnv),
+    rest.foldl passStepD (done, env, true) = (done ++ rest, env, true) := by
+  induction rest with
+  | nil => intro done env; simp
+  | cons s r ih =>
+    intro done env
+    simp only [List.foldl_cons]
+    have : passStepD (done, env, true) s = (done ++ [s], env, true) := rfl
+    rw [this, ih]; simp
+
+theorem blockStepD_true (rest : List Block) : ∀ (done : List Block) (env : DegEnv),
+    rest.foldl blockStepD (done, env, true) = (done ++ rest, env, true) := by
+  induction rest with
+  | nil => intro done env; simp
+  | cons s r ih =>
+    intro done env
+    simp only [List.foldl_cons]
+    have : blockStepD (done, env, true) s = (done ++ [s], env, true) := rfl
+    rw [this, ih]; simp
+
+theorem posOK_append (E : List Stmt) : ∀ (l₁ l₂ pre : List Stmt),
+    PosOK E pre (l₁ ++ l₂) → PosOK E pre l₁ ∧ PosOK E (pre ++ l₁) l₂ := by
+  intro l₁
+  induction l₁ with
+  | nil => intro l₂ pre h; exact ⟨trivial, by simpa using h⟩
+  | cons s r ih =>
+    intro l₂ pre h
+    simp only [List.cons_append, PosOK] at h ⊢
+    obtain ⟨i1, i2⟩ := ih l₂ (pre ++ [s]) h.2
+    exact ⟨⟨h.1, i1⟩, by simpa using i2⟩
+
+theorem stmts_foldD (E : List Stmt) (ps : List VName) (fn : Bool) (wf : WfD E ps) :
+    ∀ (rest done : List Stmt) (env : DegEnv) (c : Bool) (M Done : Stmt → Prop) (pre : List Stmt),
+      GInvD E ps fn env M Done → (∀ t, t ∈ done → M t) → (∀ t, t ∈ rest → M t) →
+      PosOK E pre (rest.map eraseS) → (c = false → ∀ t, t ∈ pre → Done t) →
+      ∃ M' Done' : Stmt → Prop, (∀ t, M t → M' t) ∧
+        GInvD E ps fn (rest.foldl passStepD (done, env, c)).2.1 M' Done' ∧
+        (∀ t, t ∈ (rest.foldl passStepD (done, env, c)).1 → M' t) ∧
+        ((rest.foldl passStepD (done, env, c)).2.2 = false → ∀ t, t ∈ pre ++ rest.map eraseS → Done' t) ∧
+        (rest.foldl passStepD (done, env, c)).1.map eraseS = done.map eraseS ++ rest.map eraseS := by
+  intro rest
+  induction rest with
+  | nil =>
+    intro done env c M Done pre h hd _ _ hpre
+    exact ⟨M, Done, fun _ h => h, h, hd, by simpa using hpre, by simp⟩
+  | cons s r ih =>
+    intro done env c M Done pre h hd hr hpos hpre
+    cases c with
+    | true =>
+      rw [passStepD_true]
+      refine ⟨M, Done, fun _ h => h, h, ?_, ?_, by simp⟩
+      · intro t ht
+        rcases List.mem_append.mp ht with h1 | h1
+        · exact hd t h1
+        · exact hr t h1
+      · intro hc; cases hc
+    | false =>
+      simp only [List.foldl_cons]
+      have hstep : passStepD (done, env, false) s =
+          (done ++ [(degStmt env s).1], (degStmt env s).2.1, (degStmt env s).2.2) := rfl
+      rw [hstep]
+      simp only [List.map_cons, PosOK] at hpos
+      have hp : PreOK E Done (basesS s) := by
+        intro v hv
+        obtain ⟨p1, p2⟩ := hpos.1 v (by rw [basesS_eraseS]; exact hv)
+        refine ⟨fun hs => ?_, fun hn => ?_⟩
+        · obtain ⟨t, ht, hd⟩ := p1 hs; exact ⟨t, hpre rfl t ht, hd⟩
+        · obtain ⟨t, ht, hd⟩ := p2 hn; exact ⟨t, hpre rfl t ht, hd⟩
+      have hm := microD E ps fn wf env M Done h s (hr _ List.mem_cons_self) hp
+      obtain ⟨M', Done', h1, h2, h3, h4, h5⟩ := ih (done ++ [(degStmt env s).1]) (degStmt env s).2.1 (degStmt env s).2.2
+        (fun t => M t ∨ t = (degStmt env s).1) (fun t => Done t ∨ ((degStmt env s).2.2 = false ∧ t = eraseS s))
+        (pre ++ [eraseS s]) hm
+        (by
+          intro t ht
+          rcases List.mem_append.mp ht with h1 | h1
+          · exact Or.inl (hd t h1)
+          · simp only [List.mem_singleton] at h1; exact Or.inr h1)
+        (fun t ht => Or.inl (hr t (List.mem_cons_of_mem _ ht)))
+        hpos.2
+        (by
+          intro hc t ht
+          rcases List.mem_append.mp ht with h1 | h1
+          · exact Or.inl (hpre rfl t h1)
+          · simp only [List.mem_singleton] at h1; exact Or.inr ⟨hc, h1⟩)
+      refine ⟨M', Done', fun t ht => h1 t (Or.inl ht), h2, h3, ?_, ?_⟩
+      · intro hc t ht
+        apply h4 hc
+        simpa [List.append_assoc] using ht
+      · rw [h5]; simp [eraseS_degStmt]
+
+theorem blocks_foldD (E : List Stmt) (ps : List VName) (fn : Bool) (wf : WfD E ps) :
+    ∀ (rest done : List Block) (env : DegEnv) (c : Bool) (M Done : Stmt → Prop) (pre : List Stmt),
+      GInvD E ps fn env M Done → (∀ t, t ∈ stmtsOf done → M t) → (∀ t, t ∈ stmtsOf rest → M t) →
+      PosOK E pre ((stmtsOf rest).map eraseS) → (c = false → ∀ t, t ∈ pre → Done t) →
+      ∃ M' Done' : Stmt → Prop, (∀ t, M t → M' t) ∧
+        GInvD E ps fn (rest.foldl blockStepD (done, env, c)).2.1 M' Done' ∧
+        (∀ t, t ∈ stmtsOf (rest.foldl blockStepD (done, env, c)).1 → M' t) ∧
+        (stmtsOf (rest.foldl blockStepD (done, env, c)).1).map eraseS =
+          (stmtsOf done).map eraseS ++ (stmtsOf rest).map eraseS := by
+  intro rest
+  induction rest with
+  | nil =>
+    intro done env c M Done pre h hd _ _ _
+    exact ⟨M, Done, fun _ h => h, h, hd, by simp [stmtsOf]⟩
+  | cons b r ih =>
+    intro done env c M Done pre h hd hr hpos hpre
+    have hb : ∀ t, t ∈ b.stmts → M t := by
+      intro t ht; apply hr; simp only [stmtsOf, List.flatMap_cons, List.mem_append]; exact Or.inl ht
+    have hr' : ∀ t, t ∈ stmtsOf r → M t := by
+      intro t ht; apply hr; simp only [stmtsOf, List.flatMap_cons, List.mem_append]; exact Or.inr ht
+    cases c with
+    | true =>
+      rw [blockStepD_true]
+      refine ⟨M, Done, fun _ h => h, h, ?_, by simp [stmtsOf]⟩
+      intro t ht
+      simp only [stmtsOf, List.flatMap_append, List.mem_append] at ht
+      rcases ht with h1 | h1
+      · exact hd t h1
+      · exact hr t h1
+    | false =>
+      simp only [List.foldl_cons]
+      have hstep : blockStepD (done, env, false) b =
+          (done ++ [{ stmts := (b.stmts.foldl passStepD ([], env, false)).1 }],
+            (b.stmts.foldl passStepD ([], env, false)).2.1, (b.stmts.foldl passStepD ([], env, false)).2.2) := rfl
+      rw [hstep]
+      have hsplit : (stmtsOf (b :: r)).map eraseS = b.stmts.map eraseS ++ (stmtsOf r).map eraseS := by
+        simp [stmtsOf]
+      rw [hsplit] at hpos
+      obtain ⟨pos1, pos2⟩ := posOK_append E _ _ pre hpos
+      obtain ⟨M₁, Done₁, g1, g2, g3, g4, g5⟩ := stmts_foldD E ps fn wf b.stmts [] env false M Done pre h
+        (by intro t ht; simp at ht) hb pos1 hpre
+      obtain ⟨M', Done', h1, h2, h3, h4⟩ := ih (done ++ [{ stmts := (b.stmts.foldl passStepD ([], env, false)).1 }])
+        (b.stmts.foldl passStepD ([], env, false)).2.1 (b.stmts.foldl passStepD ([], env, false)).2.2 M₁ Done₁
+        (pre ++ b.stmts.map eraseS) g2
+        (by
+          intro t ht
+          rw [stmtsOf_append] at ht
+          rcases List.mem_append.mp ht with h1 | h1
+          · exact g1 t (hd t h1)
+          · exact g3 t h1)
+        (fun t ht => g1 t (hr' t ht))
+        pos2 g4
+      refine ⟨M', Done', fun t ht => h1 t (g1 t ht), h2, h3, ?_⟩
+      rw [h4, stmtsOf_append, List.map_append, g5]
+      simp [stmtsOf]
+
+theorem pass_invD (E : List Stmt) (ps : List VName) (fn : Bool) (wf : WfD E ps) (env : DegEnv) (bs : List Block)
+    (M Done : Stmt → Prop) (h : GInvD E ps fn env M Done) (hm : ∀ t, t ∈ stmtsOf bs → M t)
+    (hE : (stmtsOf bs).map eraseS = E) :
+    ∃ M' Done' : Stmt → Prop, GInvD E ps fn (degPass env bs).2.1 M' Done' ∧
+      (∀ t, t ∈ stmtsOf (degPass env bs).1 → M' t) ∧ (stmtsOf (degPass env bs).1).map eraseS = E := by
+  rw [degPass_eq]
+  obtain ⟨M', Done', _, h2, h3, h4⟩ := blocks_foldD E ps fn wf bs [] env false M Done [] h
+    (by intro t ht; simp [stmtsOf] at ht) hm (by rw [hE]; exact wf.pos) (by intro _ t ht; cases ht)
+  refine ⟨M', Done', h2, h3, ?_⟩
+  rw [h4, hE]; simp [stmtsOf]
+
+theorem loop_invD (E : List Stmt) (ps : List VName) (fn : Bool) (wf : WfD E ps) :
+    ∀ (fuel : Nat) (env : DegEnv) (bs : List Block) (M Done : Stmt → Prop),
+      GInvD E ps fn env M Done → (∀ t, t ∈ stmtsOf bs → M t) → (stmtsOf bs).map eraseS = E →
+      ∃ (env' : DegEnv) (M' Done' : Stmt → Prop), GInvD E ps fn env' M' Done' ∧
+        ∀ t, t ∈ stmtsOf (degLoop fuel env bs).1 → M' t := by
+  intro fuel
+  induction fuel with
+  | zero => intro env bs M Done h hm _; exact ⟨env, M, Done, h, hm⟩
+  | succ k ih =>
+    intro env bs M Done h hm hE
+    obtain ⟨M₁, Done₁, g1, g2, g3⟩ := pass_invD E ps fn wf env bs M Done h hm hE
+    unfold degLoop
+    simp only
+    split
+    · exact ih _ _ M₁ Done₁ g1 g2 g3
+    · exact ⟨_, M₁, Done₁, g1, g2⟩
+
+-- ---------------------------------------------------------------------------- the start
+
+def paramStep (fn : Bool) (env : DegEnv) (p : VName) : DegEnv :=
+  ((env.setType p .local_).setDegree p (if fn then (0, 1) else (0, 0))).1
+
+theorem degInit_eq (cfg : Cfg) :
+    degInit cfg = cfg.params.foldl (paramStep cfg.isFunction) { ranges := [], types := [], assigned := [] } := rfl
+
+theorem initFold (fn : Bool) : ∀ (ps : List VName) (env : DegEnv),
+    let r := ps.foldl (paramStep fn) env
+    (∀ w rg, r.degree w = some rg → env.degree w = some rg ∨ (w ∈ ps ∧ rg = (if fn then (0, 1) else (0, 0)))) ∧
+    (∀ w, env.degree w ≠ none → r.degree w ≠ none) ∧ (∀ w, w ∈ ps → r.degree w ≠ none) ∧
+    (∀ w, r.isLocal w = true → env.isLocal w = true ∨ w ∈ ps) := by
+  intro ps
+  induction ps with
+  | nil =>
+    intro env
+    refine ⟨fun _ _ h => Or.inl h, fun _ h => h, ?_, fun _ h => Or.inl h⟩
+    intro w hw; cases hw
+  | cons p r ih =>
+    intro env
+    simp only [List.foldl_cons]
+    obtain ⟨i1, i2, i3, i4⟩ := ih (paramStep fn env p)
+    have d1 : ∀ w, (paramStep fn env p).degree w = if w = p then some (if fn then (0, 1) else (0, 0)) else env.degree w := by
+      intro w; unfold paramStep; rw [degree_setDegree]; split
+      · rfl
+      · rw [degree_setType]
+    refine ⟨?_, ?_, ?_, ?_⟩
+    · intro w rg h
+      rcases i1 w rg h with h1 | ⟨h1, h2⟩
+      · rw [d1] at h1
+        split at h1
+        · rename_i hw; cases h1; exact Or.inr ⟨by rw [hw]; exact List.mem_cons_self, rfl⟩
+        · exact Or.inl h1
+      · exact Or.inr ⟨List.mem_cons_of_mem _ h1, h2⟩
+    · intro w h; apply i2; rw [d1]; split
+      · simp
+      · exact h
+    · intro w hw
+      rcases List.mem_cons.mp hw with h | h
+      · apply i2; rw [d1]; simp [h]
+      · exact i3 w h
+    · intro w h
+      rcases i4 w h with h1 | h1
+      · unfold paramStep at h1
+        rw [isLocal_setDegree] at h1
+        rcases isLocal_setType env p w _ h1 with ⟨h2, _⟩ | h2
+        · exact Or.inr (by rw [h2]; exact List.mem_cons_self)
+        · exact Or.inl h2
+      · exact Or.inr (List.mem_cons_of_mem _ h1)
+
+mutual
+/-- no node of the expression carries a degree range (the CFG before the first pass) -/
+def NoDegE : Expr → Prop
+  | .infix a _ l r => a.deg = none ∧ NoDegE l ∧ NoDegE r
+  | .prefix a _ e => a.deg = none ∧ NoDegE e
+  | .switch a c t f => a.deg = none ∧ NoDegE c ∧ NoDegE t ∧ NoDegE f
+  | .var a _ => a.deg = none
+  | .num a _ => a.deg = none
+  | .call a _ args => a.deg = none ∧ NoDegEs args
+  | .arr a vals => a.deg = none ∧ NoDegEs vals
+  | .acc a _ access => a.deg = none ∧ NoDegAs access
+  | .upd a _ access rhe => a.deg = none ∧ NoDegAs access ∧ NoDegE rhe
+  | .phi a _ => a.deg = none
+def NoDegEs : Exprs → Prop
+  | .nil => True
+  | .cons e r => NoDegE e ∧ NoDegEs r
+def NoDegAs : Accs → Prop
+  | .nil => True
+  | .cons (.idx e) r => NoDegE e ∧ NoDegAs r
+  | .cons (.cmp _) r => NoDegAs r
+end
+
+theorem claimD_none (δ : VName → Nat) (e : Expr) (h : e.ann.deg = none) : claimD δ e := by
+  intro r hr; rw [h] at hr; cases hr
+
+mutual
+theorem noDeg_sound (δ : VName → Nat) : ∀ e, NoDegE e → SoundD δ FTop e
+  | .infix a op l r, h => by
+    unfold NoDegE at h; unfold SoundD
+    exact ⟨claimD_none δ _ h.1, noDeg_sound δ l h.2.1, noDeg_sound δ r h.2.2⟩
+  | .prefix a op e, h => by
+    unfold NoDegE at h; unfold SoundD
+    exact ⟨claimD_none δ _ h.1, noDeg_sound δ e h.2⟩
+  | .switch a c t f, h => by
+    unfold NoDegE at h; unfold SoundD
+    exact ⟨claimD_none δ _ h.1, noDeg_sound δ c h.2.1, noDeg_sound δ t h.2.2.1, noDeg_sound δ f h.2.2.2⟩
+  | .var a v, h => by unfold NoDegE at h; unfold SoundD; exact claimD_none δ _ h
+  | .num a n, h => by unfold NoDegE at h; unfold SoundD; exact claimD_none δ _ h
+  | .call a n args, h => by unfold NoDegE at h; unfold SoundD; exact ⟨claimD_none δ _ h.1, noDegs_sound δ args h.2⟩
+  | .arr a vals, h => by unfold NoDegE at h; unfold SoundD; exact ⟨claimD_none δ _ h.1, noDegs_sound δ vals h.2⟩
+  | .acc a v access, h => by unfold NoDegE at h; unfold SoundD; exact ⟨claimD_none δ _ h.1, noDegAs_sound δ access h.2⟩
+  | .upd a v access rhe, h => by
+    unfold NoDegE at h; unfold SoundD
+    exact ⟨claimD_none δ _ h.1, noDegAs_sound δ access h.2.1, noDeg_sound δ rhe h.2.2, trivial⟩
+  | .phi a args, h => by unfold NoDegE at h; unfold SoundD; exact claimD_none δ _ h
+theorem noDegs_sound (δ : VName → Nat) : ∀ es, NoDegEs es → SoundDs δ FTop es
+  | .nil, _ => by unfold SoundDs; trivial
+  | .cons e r, h => by
+    unfold NoDegEs at h; unfold SoundDs
+    exact ⟨noDeg_sound δ e h.1, noDegs_sound δ r h.2⟩
+theorem noDegAs_sound (δ : VName → Nat) : ∀ acc, NoDegAs acc → SoundDa δ FTop acc
+  | .nil, _ => by unfold SoundDa; trivial
+  | .cons (.idx e) r, h => by
+    unfold NoDegAs at h; unfold SoundDa
+    exact ⟨noDeg_sound δ e h.1, noDegAs_sound δ r h.2⟩
+  | .cons (.cmp n) r, h => by
+    unfold NoDegAs at h; unfold SoundDa
+    exact noDegAs_sound δ r h
+end
+
+def NoDegS : Stmt → Prop
+  | .decl _ _ dims => ∀ e, e ∈ dims → NoDegE e
+  | .ite c => NoDegE c
+  | .ret e => NoDegE e
+  | .sub _ _ _ _ rhe => NoDegE rhe
+  | .ceq l r => NoDegE l ∧ NoDegE r
+  | .log args => ∀ e, LogArg.expr e ∈ args → NoDegE e
+  | .assert e => NoDegE e
+
+theorem noDegS_sound (δ : DState) (s : Stmt) (h : NoDegS s) : SoundSD δ s := by
+  cases s with
+  | decl names ty dims => unfold NoDegS at h; unfold SoundSD; exact fun e he => noDeg_sound δ e (h e he)
+  | ite c => unfold NoDegS at h; unfold SoundSD; exact noDeg_sound δ c h
+  | ret e => unfold NoDegS at h; unfold SoundSD; exact noDeg_sound δ e h
+  | assert e => unfold NoDegS at h; unfold SoundSD; exact noDeg_sound δ e h
+  | ceq l r => unfold NoDegS at h; unfold SoundSD; exact ⟨noDeg_sound δ l h.1, noDeg_sound δ r h.2⟩
+  | log args => unfold NoDegS at h; unfold SoundSD; exact fun e he => noDeg_sound δ e (h e he)
+  | sub a v ty op rhe => unfold NoDegS at h; unfold SoundSD; exact noDeg_sound δ rhe h
+
+/-- the program of a CFG: its statements without annotations, in block order -/
+def programOf (cfg : Cfg) : List Stmt := (stmtsOf cfg.blocks).map eraseS
+
+/-- **Path-level soundness of degree propagation, for every budget of passes.** -/
+theorem degree_path_sound (cfg : Cfg) (wf : WfD (programOf cfg) cfg.params)
+    (hclean : ∀ s, s ∈ stmtsOf cfg.blocks → NoDegS s) (k : Nat) :
+    ∀ δ, ReachD (programOf cfg) cfg.params cfg.isFunction δ →
+      ∀ s, s ∈ stmtsOf (degLoop k (degInit cfg) cfg.blocks).1 → SoundSD δ s := by
+  obtain ⟨i1, i2, i3, i4⟩ := initFold cfg.isFunction cfg.params { ranges := [], types := [], assigned := [] }
+  have hinit : GInvD (programOf cfg) cfg.params cfg.isFunction (degInit cfg) (fun t => t ∈ stmtsOf cfg.blocks) (fun _ => False) := by
+    rw [degInit_eq]
+    refine ⟨fun s hs => List.mem_map.mpr ⟨s, hs, rfl⟩, ?_, fun _ h => h.elim, fun _ h => h.elim, i3, ?_,
+      fun δ _ s hs => noDegS_sound δ s (hclean s hs)⟩
+    · intro δ hr v r hv
+      rcases i1 v r hv with h1 | ⟨h1, h2⟩
+      · simp [DegEnv.degree] at h1
+      · subst h2
+        have := reachD_param _ _ _ wf.params δ hr v h1
+        constructor
+        · cases hf : cfg.isFunction <;> simp [hf] at this ⊢ <;> omega
+        · cases cfg.isFunction <;> simp
+    · intro v hv
+      rcases i4 v hv with h1 | h1
+      · simp [DegEnv.isLocal] at h1
+      · exact Or.inr h1
+  obtain ⟨env', M', Done', g1, g2⟩ := loop_invD _ _ _ wf k (degInit cfg) cfg.blocks _ _ hinit (fun _ h => h) rfl
+  exact fun δ hr s hs => g1.sound δ hr s (g2 s hs)
+
+-- ---------------------------------------------------------------------------- the hypotheses, decidably
+
+def declaresNLB (s : Stmt) (v : VName) : Bool :=
+  match s with
+  | .decl names ty _ => ty != VType.local_ && names.contains v
+  | _ => false
+def declaresLB (s : Stmt) (v : VName) : Bool :=
+  match s with
+  | .decl names ty _ => ty == VType.local_ && names.contains v
+  | _ => false
+
+theorem declaresNLB_iff (s : Stmt) (v : VName) : declaresNLB s v = true ↔ declaresNL s v := by
+  cases s <;> simp [declaresNLB, declaresNL]
+theorem declaresLB_iff (s : Stmt) (v : VName) : declaresLB s v = true ↔ declaresL s v := by
+  cases s <;> simp [declaresLB, declaresL]
+
+def nonLocalB (E : List Stmt) (v : VName) : Bool := E.any (fun s => declaresNLB s v)
+def localDeclB (E : List Stmt) (v : VName) : Bool := E.any (fun s => declaresLB s v)
+def hasSubB (E : List Stmt) (v : VName) : Bool := E.any (fun s => defVar s == some v)
+
+theorem nonLocalB_iff (E : List Stmt) (v : VName) : nonLocalB E v = true ↔ NonLocal E v := by
+  simp only [nonLocalB, List.any_eq_true, NonLocal, declaresNLB_iff]
+theorem localDeclB_iff (E : List Stmt) (v : VName) : localDeclB E v = true ↔ LocalDecl E v := by
+  simp only [localDeclB, List.any_eq_true, LocalDecl, declaresLB_iff]
+theorem hasSubB_iff (E : List Stmt) (v : VName) : hasSubB E v = true ↔ HasSub E v := by
+  simp only [hasSubB, List.any_eq_true, HasSub, beq_iff_eq]
+
+/-- names declared non-local by a statement -/
+def nlNames : Stmt → List VName
+  | .decl names ty _ => if ty != VType.local_ then names else []
+  | _ => []
+
+theorem mem_nlNames (s : Stmt) (v : VName) : v ∈ nlNames s ↔ declaresNL s v := by
+  cases s with
+  | decl names ty dims =>
+    simp only [nlNames, declaresNL]
+    by_cases h : ty = VType.local_
+    · simp [h]
+    · simp [h]
+  | _ => simp [nlNames, declaresNL]
+
+def singleOk (E : List Stmt) (a b : VName) : Prop := a ≠ b ∨ nonLocalB E a = true
+instance (E : List Stmt) (a b : VName) : Decidable (singleOk E a b) := by unfold singleOk; exact inferInstance
+
+def posOKB (E : List Stmt) : List Stmt → List Stmt → Bool
+  | _, [] => true
+  | pre, s :: r =>
+    (basesS s).all (fun v => (!hasSubB E v || pre.any (fun t => defVar t == some v)) &&
+                             (!nonLocalB E v || pre.any (fun t => declaresNLB t v))) &&
+    posOKB E (pre ++ [s]) r
+
+theorem posOKB_sound (E : List Stmt) : ∀ (rest pre : List Stmt), posOKB E pre rest = true → PosOK E pre rest := by
+  intro rest
+  induction rest with
+  | nil => intro pre _; trivial
+  | cons s r ih =>
+    intro pre h
+    simp only [posOKB, Bool.and_eq_true, List.all_eq_true] at h
+    refine ⟨?_, ih _ h.2⟩
+    intro v hv
+    have := h.1 v hv
+    simp only [Bool.and_eq_true, Bool.or_eq_true, Bool.not_eq_true', List.any_eq_true, beq_iff_eq] at this
+    refine ⟨fun hs => ?_, fun hn => ?_⟩
+    · rcases this.1 with h1 | h1
+      · rw [(hasSubB_iff E v).mpr hs] at h1; cases h1
+      · exact h1
+    · rcases this.2 with h1 | h1
+      · rw [(nonLocalB_iff E v).mpr hn] at h1; cases h1
+      · obtain ⟨t, ht, hd⟩ := h1; exact ⟨t, ht, (declaresNLB_iff t v).mp hd⟩
+
+/-- the decidable form of `WfD`, evaluated by `csmodel pathhyps` on every real dump -/
+def wfDB (E : List Stmt) (ps : List VName) : Bool :=
+  decide ((E.filterMap defVar).Pairwise (singleOk E)) &&
+  E.all (fun s => (nlNames s).all (fun v => !localDeclB E v && !ps.contains v)) &&
+  ps.all (fun v => !hasSubB E v) &&
+  posOKB E [] E
+
+theorem single_of_pairwise (E₀ : List Stmt) : ∀ (P : List Stmt), (P.filterMap defVar).Pairwise (singleOk E₀) →
+    ∀ s₁ s₂, s₁ ∈ P → s₂ ∈ P → ∀ v, defVar s₁ = some v → defVar s₂ = some v → s₁ = s₂ ∨ NonLocal E₀ v := by
+  intro P
+  induction P with
+  | nil => intro _ s₁ s₂ h₁; cases h₁
+  | cons s r ih =>
+    intro hpw s₁ s₂ h₁ h₂ v d₁ d₂
+    have hr : (r.filterMap defVar).Pairwise (singleOk E₀) := by
+      cases hd : defVar s with
+      | none => simpa [List.filterMap_cons, hd] using hpw
+      | some w => rw [List.filterMap_cons, hd] at hpw; exact (List.pairwise_cons.mp hpw).2
+    have clash : ∀ t, t ∈ r → defVar s = some v → defVar t = some v → NonLocal E₀ v := by
+      intro t ht hs htv
+      rw [List.filterMap_cons, hs] at hpw
+      have := (List.pairwise_cons.mp hpw).1 v (List.mem_filterMap.mpr ⟨t, ht, htv⟩)
+      rcases this with h | h
+      · exact absurd rfl h
+      · exact (nonLocalB_iff E₀ v).mp h
+    rcases List.mem_cons.mp h₁ with e₁ | m₁ <;> rcases List.mem_cons.mp h₂ with e₂ | m₂
+    · left; rw [e₁, e₂]
+    · subst e₁; exact Or.inr (clash s₂ m₂ d₁ d₂)
+    · subst e₂; exact Or.inr (clash s₁ m₁ d₂ d₁)
+    · exact ih hr s₁ s₂ m₁ m₂ v d₁ d₂
+
+theorem wfDB_sound (E : List Stmt) (ps : List VName) (h : wfDB E ps = true) : WfD E ps := by
+  simp only [wfDB, Bool.and_eq_true, decide_eq_true_eq, List.all_eq_true] at h
+  obtain ⟨⟨⟨h1, h2⟩, h3⟩, h4⟩ := h
+  refine ⟨single_of_pairwise E E h1, ?_, ?_, posOKB_sound E E [] h4⟩
+  · intro v ⟨s, hs, hd⟩
+    have := h2 s hs v ((mem_nlNames s v).mpr hd)
+    simp only [Bool.and_eq_true, Bool.not_eq_true'] at this
+    refine ⟨fun hl => ?_, fun hp => ?_⟩
+    · rw [(localDeclB_iff E v).mpr hl] at this; cases this.1
+    · have h5 := this.2
+      simp [hp] at h5
+  · intro v hv hs
+    have := h3 v hv
+    rw [(hasSubB_iff E v).mpr hs] at this; cases this
 
 end Circomspect.Propagate
